@@ -120,10 +120,6 @@ def plan(tier, seed):
         units.append({'kind': 'crl_tamper', 'full': not q, 'flips': 600, 'entries': i % 4, 'weight': 4 if q else 12})
     for i in range(2 if q else 8):
         units.append({'kind': 'checkcrl', 'weight': 2})
-    import os
-    only = os.environ.get('VF_C15_ONLY')
-    if only:
-        units = [x for x in units if x['kind'] in only.split(',')]
     return units
 
 
